@@ -83,8 +83,9 @@ let register_buffer (slices : (int * int) list) (k : int) (arg : int) (bytes : s
           let enc = bapply_bytes g sub in
           let (h1, h2) = hash2 enc in
           let key = (String.length enc, h1, h2) in
-          if not (Hashtbl.mem known key) then
-            Hashtbl.add known key
+          (* the most recent call's buffer wins: a later call that sends identical contents is credited with
+             its own buffer, not with an earlier call's *)
+            Hashtbl.replace known key
               (match g with
                | Iface.BId -> Iface.IData (Iface.DArg (n k, n arg, n off, n l))
                | _ -> Iface.IDataEach (g, Coq_xH, Iface.DArg (n k, n arg, n off, n l))))
